@@ -221,7 +221,7 @@ class C15(Prop):
                     ["close", "close", "close_default", "send", "ping"])).map(list), max_size=4))
             return {"p": p, "r": r, "t": t, "c": c, "horizon": horizon, "arrivals": arrivals,
                     "close_at": close_at, "reply_at": reply_at, "t_reply": draw(st.sampled_from([0, 0, 3, 10])),
-                    "while_closing": while_closing, "auto_pong": draw(st.sampled_from([None, True, False])), "prelude": draw(gen.prelude(6)), "companion": draw(gen.companion(6))}
+                    "while_closing": while_closing, "auto_pong": draw(st.sampled_from([None, True, False])), "prelude": draw(gen.prelude(6)), "companion": draw(gen.companion(6)), "noise_calls": draw(gen.noise_calls())}
         return case()
 
     def enumerations(self, tier):
